@@ -365,6 +365,11 @@ pub fn stress_sources() -> Vec<(String, String)> {
     // references and values: mutation through three containers, equal-looking arrays and objects that are distinct, an array that is
     // its own element's element, a parent changed after the child was made, integers equal to heap positions
     v.push(("aliasing-through-containers".into(), "let inner = array(2, 0);\nlet mid = object begin let slot = inner; end;\nlet outer = array(2, mid);\nlet alias = outer[1].slot;\nalias[1] <- 7;\nprint(\"~ ~ ~\\n\", inner, mid, outer);\nlet a = array(2, 0); let b = array(2, 0); a[0] <- 1; print(\"~ ~\\n\", a, b);\nlet rows = array(2, array(2, 0)); rows[0][0] <- 5; print(\"~\\n\", rows);\nlet same = array(2, inner); same[0][0] <- 9; print(\"~ ~\\n\", same, inner);\nlet self = array(2, null); let holder = array(1, self); self[0] <- holder; print(\"~\\n\", self[0][0][0][0][1]);\nlet base = object begin let f = 1; function get() -> this.f; end;\nlet child = object extends base begin end;\nbase.f <- 2; print(\"~ ~\\n\", child.get(), child);\nlet i1 = 1; let i2 = i1; i2 <- 5; print(\"~ ~\\n\", i1, i2);\nfunction mutate(arr, obj, n) -> begin arr[0] <- 100; obj.f <- 200; n <- 300; n end;\nlet n0 = 3; print(\"~ ~ ~ ~\\n\", mutate(inner, base, n0), inner, base, n0);\nlet e1 = object begin end; let e2 = object begin end; let es = array(2, object begin let k = 0; end); es[0].k <- 1; print(\"~ ~ ~\\n\", e1, e2, es);\nlet t = true; let t2 = t; let nn = null; print(\"~ ~ ~ ~ ~\\n\", t, t2, nn, 0, false);\nlet small = array(3, 0); small[0] <- 0; small[1] <- 1; small[2] <- 2;\nlet objs = array(3, object begin let id = 0; end);\nobjs[0].id <- 2; objs[1].id <- 1; objs[2].id <- 0;\nprint(\"~ ~ ~ ~\\n\", small, objs, small[objs[0].id], objs[small[2]].id);\n".into()));
+    // legal programs a linter would frown at: get / set and operators with unusual parameter counts, unused and shadowing names,
+    // constant conditions, dead faults, assignment in a condition, empty blocks - success with nothing on stderr
+    v.push(("lint-bait".into(), "let m = object begin\n  let cells = array(6, 0);\n  function get(r, c) -> this.cells[r * 3 + c];\n  function set(r, c, v) -> this.cells[r * 3 + c] <- v;\n  function +() -> 7;\n  function ==(a, b) -> a + b;\n  function -(a, b, c) -> a + b + c;\nend;\nm.set(1, 2, 5);\nprint(\"~ ~ ~ ~ ~\\n\", m.get(1, 2), m.get(0, 0), m.+(), m.==(1, 2), m.-(1, 2, 3));\nlet g0 = object begin function get() -> 1; function set(a) -> 3; end;\nprint(\"~ ~\\n\", g0.get(), g0.set(9));\nlet unused = 5;\nfunction never_called(a, b) -> a;\nfunction ignores(a, b) -> 1;\nlet x = 1; x <- x;\nif 1 == 1 then print(\"same\\n\") else print(\"~\", 1 / 0);\nif false then 1 / 0;\nwhile false do nosuch();\nbegin end;\nbegin begin end end;\nif (x <- 2) == 2 then print(\"assigned in condition\\n\");\nlet a_name_that_is_really_quite_long_and_goes_on_for_a_while_longer_than_any_sensible_line_width_would_allow_in_a_style_guide = 1;\nlet shadow = 1; begin let shadow = 2; shadow end;\nfunction shadow(shadow) -> shadow;\nprint(\"~ ~ ~\\n\", ignores(1, 2), shadow, shadow(3));\n".into()));
+    // how many values a program creates: compound initializers of every kind, 0 to 3 elements
+    v.push(("allocation-multiplicity".into(), "let v = object begin function who() -> 1; end;\nlet n = 0;\nwhile n < 4 do begin\n  let a = array(n, object begin end);\n  let b = array(n, object begin function m() -> 1; end);\n  let c = array(n, object extends v begin function k() -> 2; end);\n  let d = array(n, object extends 5 begin end);\n  let e = array(n, array(0, 0));\n  let f = array(n, array(2, n));\n  let g = array(n, object begin let s = n; end);\n  let h = array(n, v);\n  let i = array(n, null);\n  print(\"~ ~ ~ ~ ~ ~ ~ ~ ~\\n\", a, b, c, d, e, f, g, h, i);\n  n <- n + 1\nend;\nlet two = array(2, object begin function m() -> 1; end);\nprint(\"~\\n\", two);\n".into()));
     // degenerate programs
     v.push(("empty-program".into(), "".into()));
     v.push(("only-comments".into(), "// nothing\n/* at all */\n".into()));
